@@ -5441,23 +5441,28 @@ class DfaCompileCtx:
                     return t.is_fallthrough or (symbols == [DFTransition.End] and DFTransition.End in t.on_values)
 
                 visited = set()
-                def consider(transition):
-                    return not any(x.get_target_override_mode() in [ActionOverrideMode.ALWAYS_GOTO_OTHER, ActionOverrideMode.ALWAYS_GOTO_UNDEFINED] and transition.target not in x.get_target_override_targets() for x in transition.actions)
+                def leads_to(transition):
+                    # where taking the transition can leave the machine: wherever its actions may send it (a break, also under an if)
+                    # and, unless one of them always does, its own target
+                    targets = []
+                    for x in transition.actions:
+                        if x.get_target_override_mode() != ActionOverrideMode.NONE:
+                            targets.extend(x.get_target_override_targets())
+                        if x.get_target_override_mode() in [ActionOverrideMode.ALWAYS_GOTO_OTHER, ActionOverrideMode.ALWAYS_GOTO_UNDEFINED]:
+                            return targets
+                    return targets + [transition.target]
 
                 def aux(x):
                     if isinstance(x, DFConditionPoint):
-                        for i in x.transitions:
-                            if i.target in visited:
-                                continue
-                            if consider(i):
-                                visited.add(i.target)
-                                aux(i.target)
+                        steps = x.transitions
                     else:
                         real_target = x[symbols]
-                        if real_target and stays_in_place(real_target) and consider(real_target):
-                            if real_target.target not in visited:
-                                visited.add(real_target.target)
-                                aux(real_target.target)
+                        steps = [real_target] if real_target and stays_in_place(real_target) else []
+                    for step in steps:
+                        for target in leads_to(step):
+                            if target not in visited:
+                                visited.add(target)
+                                aux(target)
                 
                 aux(state)
 
